@@ -34,7 +34,7 @@ COMPONENTS = {
              'python sqlite3 + libsqlite3 on a tmpfs file', 'run family: the algorithms named in the rule'],
     'stub': ['user objective (harness world)', 'time.time', 'uuid1', 'joblib (unused: single writer)'],
 }
-PROBES_EXPECTED = ['single_connection_store', 'reopened_session', 'reopened_in_new_process', 'repeated_id', 'rewrite_over_other_problem', 'foreign_lock', 'resync_same_id', 'inf_value', 'numpy_scalar', 'reference_to_individual', 'nested_custom', 'sync_all',
+PROBES_EXPECTED = ['stored_out_of_creation_order', 'single_connection_store', 'reopened_session', 'reopened_in_new_process', 'repeated_id', 'rewrite_over_other_problem', 'foreign_lock', 'resync_same_id', 'inf_value', 'numpy_scalar', 'reference_to_individual', 'nested_custom', 'sync_all',
                    'run_family', 'view_mid_history']
 
 FIELDS = ('vector', 'costs', 'costs_signed', 'population_id', 'custom', 'features')
@@ -277,8 +277,28 @@ def _store(D):
                 if D.dec('work', k + ('cd',), 3) == 1:
                     ind.features['crowding_distance'] = float('inf')
                     ctx.probe('inf_value')
+                second = None
+                if D.dec('work', k + ('pair',), 5) == 1:
+                    # two designs of one batch whose workers finish in the opposite order: the younger one (higher id) is stored
+                    # first, so the rows of the file are not in id order
+                    second = Individual(W.gen_vector(w, D, 'work', ('v2', o)))
+                    if second.id in model:
+                        ctx.violation('id_reused', site, 'a design created after the file was re-opened received id %d, which a '
+                                      'stored design already has (stored ids %r)' % (second.id, sorted(model)[:8]))
+                        break
+                    second.costs = w.f(second.vector)
+                    second.calc_signed_costs(w.signs)
+                    second.state = second.State.EVALUATED
+                    second.population_id = ind.population_id
+                    ctx.probe('stored_out_of_creation_order')
                 p.individuals.append(ind)
                 pool.append(ind)
+                if second is not None:
+                    p.individuals.append(second)
+                    pool.append(second)
+                    with W.quiet():
+                        store.sync_individual(second)
+                    model[second.id] = model_of(second)
                 with W.quiet():
                     store.sync_individual(ind)
                 model[ind.id] = model_of(ind)
